@@ -409,6 +409,12 @@ func (db *MemDB) evictExemptShareEntryUnsafe(ctx context.Context, k key, shareId
 	)
 
 	sigs := db.entries[k]
+	if len(sigs) >= db.threshold {
+		// Never shrink an entry that may already have triggered aggregation: the evicted share could
+		// be stored again and reach the threshold a second time. Such entries need threshold distinct
+		// shares, so a single share cannot use them to grow memory without bound.
+		return
+	}
 
 	remaining := sigs[:0]
 	for _, sig := range sigs {
